@@ -168,5 +168,7 @@ def run(ctx: Ctx):
         if x["s"] != "general":
             ctx.nontrivial(str(x["r"]))
     ctx.cov["traces_validated_against_impl"] += len(recs)
+    if ctx.tier == "thorough":      # the three-term relation behind cr(a,b,c,d) = 1 - cr(a,c,b,d): for all integers
+        ctx.lift_lemmas([("L_Adjugate", "ThreeTerm", True), ("L_Adjugate", "Falsified", False)])
     ctx.sample(recs[0]["r"])
     ctx.sample(recs[-1]["r"])
